@@ -278,7 +278,8 @@ def decide(pid: str, tier: str, seed: int, verbose=False, only_units=None) -> in
     # closure over contracts used at call sites
     results = {}
     pending = list(units)
-    nproc = int(os.environ.get("PYVC_JOBS", str(min(16, os.cpu_count() or 4))))
+    # hard obligations fan out to up to four external solver processes each, so leave head-room
+    nproc = int(os.environ.get("PYVC_JOBS", str(max(2, min(12, (os.cpu_count() or 4) * 3 // 4)))))
     with mp.Pool(nproc, maxtasksperchild=8) as pool:
         while pending:
             jobs = [(u, [k for k in open_known if k.get("unit") == u], True) for u in pending]
